@@ -645,6 +645,9 @@ func Main(property string, gen func(cfg *Config, emit func(Scenario))) {
 
 	var scs []Scenario
 	gen(cfg, func(s Scenario) { scs = append(scs, s) })
+	// every shard process must see the scenarios in the same order (a
+	// generator may emit them in map-iteration order)
+	sort.SliceStable(scs, func(a, b int) bool { return scs[a].Name < scs[b].Name })
 	names := map[string]bool{}
 	for _, s := range scs {
 		if names[s.Name] {
